@@ -17,10 +17,10 @@ ASSUMPTIONS = [
     "the original model is re-bound for every call (evaluate with a dictionary naming a sub-proposition id mutates its receiver: C09 finding D3)",
 ]
 BOUNDS = {
-    "quick": "|d|<=2 on ab/explicit; |d|<=1 on abc/explicit, at/explicit; |d|<=1 over compound ids on diamond/explicit",
+    "quick": "|d|<=2 on ab/explicit; |d|<=1 on abc/explicit, at/explicit, wide/1 (16-bit leaves: region alphabet for assumed values, remaining leaves and completions); |d|<=1 over compound ids on diamond/explicit",
     "thorough": "|d|<=2 on abc/explicit, at/explicit, ab/generated; |d|<=1 on abt, abct, diamonds (all ids), d3/abc",
 }
-QUICK = [("ab/explicit", 2, "all"), ("abc/explicit", 1, "all"), ("at/explicit", 1, "all"), ("diamond/explicit", 1, "compounds")]
+QUICK = [("ab/explicit", 2, "all"), ("abc/explicit", 1, "all"), ("at/explicit", 1, "all"), ("diamond/explicit", 1, "compounds"), ("wide/1", 1, "all")]
 THOROUGH = [("ab/explicit", 2, "all"), ("abc/explicit", 2, "all"), ("at/explicit", 2, "all"), ("ab/generated", 2, "all"),
             ("abt/explicit", 1, "all"), ("abct/explicit", 1, "all"), ("diamond/explicit", 1, "all"), ("diamond/generated", 1, "compounds"),
             ("d3/abc/explicit", 1, "all"), ("fixed/ab", 1, "all")]
@@ -40,6 +40,11 @@ def run_shard(desc, acc, tier):
 
 
 def leaf_values(lo, hi):
+    if hi - lo > 100:
+        # 16-bit leaf: constants and ranges from a region alphabet (extremes, around 0, wide sub-ranges)
+        consts = [lo, lo + 1, -2, -1, 0, 1, 2, hi - 1, hi]
+        rngs = [(lo, hi), (lo, 0), (0, hi), (-30000, 30000), (0, 30000), (-1, 1), (1, hi)]
+        return [(c, c) for c in consts if lo <= c <= hi] + [r for r in rngs if lo <= r[0] and r[1] <= hi]
     out = [(v, v) for v in range(lo, hi + 1)]
     for l in range(lo, hi + 1):
         for h in range(l + 1, hi + 1):
@@ -118,7 +123,7 @@ def check_d(m, chosen, di, acc, case0, leaves, lids, comps, idof, k):
     acc.n("transitions")
     acc.state((m, di))
     results = set()
-    for rho in ref.assignments(rest):
+    for rho in ref.assignments_dom(rest, 3):
         acc.n("traces")
         acc.n("transitions", 2)
         try:
@@ -153,7 +158,7 @@ def check_d(m, chosen, di, acc, case0, leaves, lids, comps, idof, k):
     # second clause: unmentioned variables keep bounds containing every value they can take
     dom = {i: (leaf_rng[i] if i in leaf_rng else leaves[i]) for i in lids}
     rng_by_id = {}
-    for alpha in ref.assignments(dom):
+    for alpha in ref.assignments_dom(dom, 3):
         table = {}
         ref.truth(m, alpha, overrides, table)
         for node, v in table.items():
